@@ -344,15 +344,7 @@ def run(ctx):
                   "vectors, which for an angle theta is 2*sin(theta/2); "
                   "found %s (linking length in arcmin = theta)" % e,
                   {"found": str(e), "expected": str(ref)}, conv)
-    pf = prog.func("source_finder.SourceFinder.priorized_fit_islands")
-    d0 = [s for s in walk_no_nested(pf.node) if isinstance(s, ast.Assign) and
-          norm(s.targets[0]) == "regroup_eps" and "mean" in norm(s.value)]
-    ok = len(d0) == 1 and norm(d0[0].value).replace(" ", "") == \
-        "4*np.mean([s.a/60forsinsources])"
-    ctx.check("C19-R5", pf, "default linking length " +
-              (norm(d0[0], 70) if d0 else "?"), ok,
-              "the default is 4x the mean major axis, converted from arcsec "
-              "to arcmin (/60)", node=d0[0] if d0 else pf.node)
+    default_linking_length(ctx, prog, "C19-R5")
     unitrules.apply(ctx, "C19-R5", {"cluster.regroup_dbscan",
                                     "cluster.norm_dist", "cluster.sky_dist"},
                     kinds={"call"}, what="unit contracts in cluster.py",
@@ -428,3 +420,52 @@ def run(ctx):
                       "identity at ratio 1, non-decreasing for ratio >= 1; "
                       "found %s" % (ax, ax, e), node=s)
     ctx.floor("C19-R7", n7, 2, "ratio-based rescale statements")
+
+
+def default_linking_length(ctx, prog, rule):
+    """the default linking length of priorized fitting is a positive multiple
+    of the mean catalogued major axis, converted arcsec -> arcmin (the next
+    conversion, shared with the command line, expects arcmin)"""
+    pf = prog.func("source_finder.SourceFinder.priorized_fit_islands")
+    mod = prog.modules[pf.module]
+    d0 = [s for s in walk_no_nested(pf.node) if isinstance(s, ast.Assign) and
+          norm(s.targets[0]) == "regroup_eps" and any(
+              isinstance(c, ast.Call) and prog.dotted(mod, c.func) in (
+                  "numpy.mean", "numpy.nanmean", "numpy.average")
+              for c in ast.walk(s.value))]
+    ok = False
+    found = None
+    if len(d0) == 1:
+        comps = [c for c in ast.walk(d0[0].value)
+                 if isinstance(c, (ast.ListComp, ast.GeneratorExp))]
+        if len(comps) == 1 and len(comps[0].generators) == 1 and \
+                not comps[0].generators[0].ifs:
+            var = norm(comps[0].generators[0].target)
+            A = sp.Symbol("a_arcsec", positive=True)
+            M = sp.Symbol("mean_of_elements", positive=True)
+            tr = sym.Translator(prog, mod, {})
+            tr.env[var + ".a"] = A
+            try:
+                elt = tr.expr(comps[0].elt)
+
+                class T2(sym.Translator):
+                    def call(self, n):
+                        if prog.dotted(mod, n.func) in (
+                                "numpy.mean", "numpy.nanmean",
+                                "numpy.average"):
+                            return M
+                        return super().call(n)
+                outer = T2(prog, mod, {}).expr(d0[0].value)
+                found = "%s with elements %s" % (outer, elt)
+                k = sp.simplify(outer / M)
+                ok = sp.simplify(elt - A / 60) == 0 and k.is_number and \
+                    k > 0
+            except (sym.Untranslatable, TypeError) as e:
+                found = "not translatable: %s" % e
+    ctx.check(rule, pf, "default linking length " +
+              (norm(d0[0], 70) if d0 else "?"), ok,
+              "the default must be a positive multiple of the mean major "
+              "axis converted from arcsec to arcmin (/60): the value is "
+              "divided by 60 again and taken as degrees, so any other "
+              "conversion makes blends be fitted one by one (or everything "
+              "jointly); found %s" % found, node=d0[0] if d0 else pf.node)
